@@ -145,14 +145,21 @@ def scrollUp (k : Console) (n : Nat) : Console :=
   if n = 0 ∨ n > k.h then k else
   { k with cells := k.cells.drop n ++ k.cells.drop (k.h - n) }
 
+/-- blank the cells of lines `y … y+h-1`, columns `x … x+w-1` (1-based) -/
+def fillCells (cells : Grid) (x y w h : Nat) (fg bg : UInt8) : Grid :=
+  cells.mapIdx fun r line =>
+    if y ≤ r + 1 ∧ r + 1 < y + h then
+      (line.mapIdx fun c old => if x ≤ c + 1 ∧ c + 1 < x + w then ⟨32, fg, bg⟩ else old)
+    else line
+
 /-- `Fill(x, y, w, h, fg, bg)`: every cell of the rectangle becomes a blank in the colours given;
 a rectangle that is not inside the grid counts as an outside draw (and is clipped) -/
 def fill (k : Console) (x y w h : Nat) (fg bg : UInt8) : Console :=
   let inside := 1 ≤ x ∧ 1 ≤ y ∧ x + w ≤ k.w + 1 ∧ y + h ≤ k.h + 1
-  let cells := (List.range k.h).map fun r => (List.range k.w).map fun c =>
-    if y ≤ r + 1 ∧ r + 1 < y + h ∧ x ≤ c + 1 ∧ c + 1 < x + w then ⟨32, fg, bg⟩
-    else (k.cells.getD r []).getD c default
-  { k with cells := cells, outside := if inside then k.outside else k.outside + 1 }
+  { k with cells := fillCells k.cells x y w h fg bg, outside := if inside then k.outside else k.outside + 1 }
+
+/-- the cell shown at line `r`, column `c` (0-based) -/
+def «at» (k : Console) (r c : Nat) : Cell := (k.cells.getD r []).getD c default
 
 def apply (k : Console) : Call → Console
   | .write ch fg bg x y => k.write ch fg bg x y
@@ -163,5 +170,13 @@ def apply (k : Console) : Call → Console
 def applyLog (k : Console) (log : List Call) : Console := log.foldr (fun c k => k.apply c) k
 
 end Console
+
+/-- a console call is inside the grid of a `w × h` console: a cell of the grid, a scroll up by at
+most the whole screen, a rectangle inside the grid (the domain on which C19 specifies the
+shipped consoles without clipping) -/
+def CallOk (w h : Nat) : Call → Prop
+  | .write _ _ _ x y => 1 ≤ x ∧ x ≤ w ∧ 1 ≤ y ∧ y ≤ h
+  | .scroll dir n => dir = Firefly.Gen.C17.scrollDirUp ∧ 1 ≤ n ∧ n ≤ h
+  | .fill x y fw fh _ _ => 1 ≤ x ∧ 1 ≤ y ∧ x + fw ≤ w + 1 ∧ y + fh ≤ h + 1
 
 end Firefly.Term
